@@ -149,7 +149,7 @@ impl Prop for C04 {
         "C04"
     }
     fn rule(&self) -> String {
-        "graphs of all 8 kinds built by construction: n in 0..=9 (oracle: enumeration of all simple paths with pruning), n in 10..=20 and n in 21..=34 (oracle: Floyd-Warshall + path counts on the shortest-path DAG; takes the parallel code path), shape catalogue mixed in, shuffled insertion order; weight modes unweighted / positive dyadic / tiny dyadic (2^-40 scale) / large dyadic (2^30 scale) / tie-rich {1,2} / non-negative with zeros (distances and path validity only) / non-dyadic floats (distances bit-equal to a same-fold Bellman-Ford, path validity). Calls: single_source from every source with (first_only,with_paths) in {(F,T),(T,T),(F,F)}, in weighted and hop-count mode, multi_source on a generated source subset, all_pairs, and all_pairs with one generated target (inside a pool of 2-4 threads when n > 20). Non-trivial = some pair has >= 2 shortest paths, or some pair is unreachable, or parallel edges of different weight exist; distinct = distinct serialised case. Exhaustive block: all graphs on <= 3 nodes of the 4 single-edge kinds. Name-type independence: for every graph of <= 12 nodes and one in eight up to 64 (34 for path-returning calls) the same calls are repeated with a user-defined node-name type (lossy Display, heavily colliding Hash, Ord unrelated to insertion order) and must give the same order-independent results as with String names (floats within 1e-9). Exhaustive block additions: the 66 003-node graph (distances from three sources against a heap Dijkstra on the edge list) and complete graphs of 300 / 520 nodes with position-law weights ((i-j)^2 and three relatives: hundreds of successive strict improvements of one node).".into()
+        "graphs of all 8 kinds built by construction: n in 0..=9 (oracle: enumeration of all simple paths with pruning), n in 10..=20 and n in 21..=34 (oracle: Floyd-Warshall + path counts on the shortest-path DAG; takes the parallel code path), shape catalogue mixed in, shuffled insertion order; weight modes unweighted / positive dyadic / tiny dyadic (2^-40 scale) / large dyadic (2^30 scale) / tie-rich {1,2} / non-negative with zeros (distances and path validity only) / non-dyadic floats (distances bit-equal to a same-fold Bellman-Ford, path validity). Calls: single_source from every source with (first_only,with_paths) in {(F,T),(T,T),(F,F)}, in weighted and hop-count mode, multi_source on a generated source subset, all_pairs, and all_pairs with one generated target (inside a pool of 2-4 threads when n > 20). Non-trivial = some pair has >= 2 shortest paths, or some pair is unreachable, or parallel edges of different weight exist; distinct = distinct serialised case. Exhaustive block: all graphs on <= 3 nodes of the 4 single-edge kinds. Name-type independence: for every graph of <= 12 nodes and one in eight up to 64 (34 for path-returning calls) the same calls are repeated with a user-defined node-name type (lossy Display, heavily colliding Hash, Ord unrelated to insertion order) and must give the same order-independent results as with String names (floats within 1e-9). Exhaustive block additions: the 66 003-node graph (distances from three sources against a heap Dijkstra on the edge list) and complete graphs of 300 / 520 nodes with position-law weights ((i-j)^2 and three relatives: hundreds of successive strict improvements of one node). Round 9: weight mode of neighbouring doubles (1, 1 + 2^-51, 1 + 2^-50; exact oracles while every distance is below 4, same-fold Bellman-Ford otherwise): routes whose lengths differ by one ulp. Recurrence protocol (one case in 32 with P in {255, 256}, one in 512 with P in {65535, 65536}, graphs of 2..=40 nodes): a search from source a, then exactly P - 1 searches from an isolated node of another graph (node index 300 only), then a search from source c on the same thread, whose answer is checked against the oracle like any other.".into()
     }
     fn assumptions(&self) -> Vec<String> {
         vec!["weights are non-negative; completeness of the path set is only asserted for strictly positive dyadic weights (exact sums)".into(), "the oracle library harness/src/oracle.rs".into()]
